@@ -456,6 +456,9 @@ impl Expression for ExpressionAssignUndefined {
             match left_result {
                 Err(err) => Err(err),
                 Ok(left_value) => {
+                    if left_value.is_readonly() {
+                        return Err(format!("Can't set read-only {left_value}"));
+                    }
                     // Assignment of a value to itself, locking it twice would block forever.
                     if !Arc::ptr_eq(&left_value.arc, &right_result.arc) {
                         right_result
